@@ -49,12 +49,12 @@ CORNER = {(0, 1): "tl", (1, 2): "bl", (2, 3): "br", (0, 3): "tr"}
 def plan(tier):
     if tier == "thorough":
         return {"cases": 40000, "shards": 16, "budget_s": 2400}     # nominal ~5 min wall; soft deadline generous (shared machine)
-    return {"cases": 3200, "shards": 8, "budget_s": 300}            # nominal ~25 s wall
+    return {"cases": 2400, "shards": 8, "budget_s": 300}            # nominal ~20 s wall
 
 
 def floors(tier):
     k = 10 if tier == "thorough" else 1
-    f = {"evaluations": 1500 * k, "gate_checks": 200 * k, "circuits": 150 * k, "gate_applications": 300 * k,
+    f = {"evaluations": 1200 * k, "gate_checks": 200 * k, "circuits": 150 * k, "gate_applications": 300 * k,
          "product_state_checks": 60 * k, "purification_circuits": 20 * k, "ancilla_free_circuits": 10 * k,
          "apply:local": 20 * k, "apply:nn": 80 * k, "apply:distant": 10 * k, "apply:mpo": 30 * k, "apply:seam": 5 * k,
          "apply:mpo_object": 10 * k, "order_sensitive_applications": 40 * k,
@@ -76,6 +76,14 @@ def floors(tier):
 
 def nontrivial(x):
     return int(np.count_nonzero(x)) >= 2
+
+
+def state_scale(psi):
+    """product of the norms of the site tensors: the natural size of contraction round-off in to_tensor()."""
+    s = 1.0
+    for site in psi.sites():
+        s *= float(psi[site].norm())
+    return s
 
 
 def judge(ctx, margin_name, key, got, exp, tol, what, witness=None):
@@ -436,7 +444,7 @@ def case_circuit(ctx, idx, rng, nprng):
         tol = 16 * EPS * fr.N * max(float(np.abs(exp0).max()), 1e-300)
         judge(ctx, "to_tensor:product", "value:to_tensor:product-state:" + ("purif" if sk == "purif" else "vec"), x, exp0, tol,
               f"to_tensor() of a product state on {dims} {bd} ({F.cls},{F.sym}) vs Kronecker product", base)
-    if not np.any(x):
+    if float(np.abs(x).max()) < 1e-8 * state_scale(psi):      # symmetry-forbidden (numerically zero) state
         raise CaseSkip
     nsteps = rng.randint(2, 5)
     steps = []
@@ -451,7 +459,7 @@ def case_circuit(ctx, idx, rng, nprng):
         y = fr.dense(psi)
         ref = R.apply_chain(F.loc, x, gd["M"], gd["positions"], fr.sys_axes)
         scale = max(float(np.abs(ref).max()), float(np.linalg.norm(np.asarray(gd["M"]).ravel()) * np.abs(x).max()), 1e-300)
-        tol = 4000 * EPS * scale * (1 + len(gd["path"]))
+        tol = max(4000 * EPS * scale * (1 + len(gd["path"])), 200 * EPS * state_scale(psi))
         seam = any(PG.is_seam(g, a, b) for a, b in zip(gd["path"][:-1], gd["path"][1:]))
         dcls = gd["dirs"][0] if gd["label"] == "nn" else ""
         key = "value:apply_gate_:" + gd["label"] + (":" + dcls if dcls else "") + (":seam" if seam else "") + \
@@ -655,7 +663,8 @@ def case_add(ctx, idx, rng, nprng):
             tot = tot + p
     exp = sum(a * x for a, x in zip(amps, xs))
     got = fr.dense(tot)
-    scale = max(sum(abs(a) * float(np.abs(x).max()) for a, x in zip(amps, xs)), 1e-300)
+    scale = max(sum(abs(a) * float(np.abs(x).max()) for a, x in zip(amps, xs)),
+                sum(abs(a) * state_scale(p) for a, p in zip(amps, states)), 1e-300)
     single = dims == (1, 1)
     base = {"kind": "add", "family": [F.cls, F.sym], "lattice": [list(dims), bd], "state": sk, "summands": nst,
             "amplitudes": amps if use_amp else None, "histories": hist}
